@@ -10,6 +10,8 @@ It holds for all histories iff nothing else writes the representation:
   C08.c  single residence of shared nodes: a module-/class-level Expr instance is never
          embedded into a tree without .copy().
   C08.d  __deepcopy__ copies _hash only next to a structurally identical copy of args.
+  C08.e  the same argument nodes are never embedded twice on one path without a copy.
+  C08.f  leaf classes (is_primitive) are never constructed with a child node.
 Does not decide: index arithmetic inside set(index=...), hash collisions.
 """
 
@@ -73,6 +75,118 @@ def _fresh_locals(f: Func | None) -> set[str]:
     return out
 
 
+def _resets_only_previously_unhashed(m: Module, f: Func | None, st: ast.stmt, target: ast.Attribute) -> bool:
+    """`for node in <coll>: node._hash = None` where <coll> is a local built by filtering on `._hash is None`"""
+    p = m.parent(st)
+    if not isinstance(p, ast.For) or f is None:
+        return False
+    if not (isinstance(target.value, ast.Name) and norm(p.target) == target.value.id and isinstance(p.iter, ast.Name)):
+        return False
+    coll = p.iter.id
+    defs = [x.value for x in walk_no_nested(f.node) if isinstance(x, ast.Assign) and len(x.targets) == 1 and norm(x.targets[0]) == coll]
+    if not defs:
+        return False
+
+    def filtered(e: ast.AST) -> bool:
+        if isinstance(e, ast.IfExp):
+            return all(filtered(b) or (isinstance(b, (ast.List, ast.Tuple)) and not b.elts) for b in (e.body, e.orelse))
+        if isinstance(e, (ast.ListComp, ast.GeneratorExp)):
+            return any("._hash is None" in norm(c) for g in e.generators for c in g.ifs)
+        if isinstance(e, ast.Call) and e.args:
+            return filtered(e.args[0])
+        return False
+
+    return all(filtered(d) for d in defs)
+
+
+def rule_e(ctx: Ctx) -> None:
+    ctx.rule(
+        "C08.e",
+        "single residence of arguments: within one function the same variable is not embedded twice (constructor argument, set/append, "
+        "or a builder called with copy=False) on a common path without a copy",
+    )
+    from ..cfg import CFG
+
+    names = _expr_class_names(ctx)
+    n = 0
+    for f in ctx.repo.all_funcs():
+        m = f.module
+        if m.name.startswith(("sqlglot.executor", "sqlglot.planner")):
+            continue
+        uses: dict[str, list[tuple[ast.AST, str]]] = {}
+        for c in walk_no_nested(f.node):
+            if not isinstance(c, ast.Call):
+                continue
+            cn = (call_name(c) or "").split(".")[-1]
+            kw = next((k.value for k in c.keywords if k.arg == "copy"), None)
+            copy_false = isinstance(kw, ast.Constant) and kw.value is False
+            is_ctor = cn in names and cn[:1].isupper()
+            is_set = isinstance(c.func, ast.Attribute) and ((c.func.attr == "set" and len(c.args) >= 2) or (c.func.attr == "append" and len(c.args) == 2))
+            if not (copy_false or is_ctor or is_set):
+                continue
+            args = list(c.args[1:] if is_set else c.args) + [k.value for k in c.keywords if k.arg not in ("copy", "dialect", "append", "into", "prefix")]
+            for a in args:
+                v = a.value if isinstance(a, ast.Starred) else a
+                if isinstance(v, ast.Name) and v.id not in ("self", "cls"):
+                    how = f"{cn}(..., copy=False)" if copy_false else (f"new {cn}(...)" if is_ctor else f".{c.func.attr}(...)")
+                    # a starred parameter tuple (`*expressions`) or a plain variable holding nodes
+                    uses.setdefault(v.id, []).append((c, how + (" [*unpacked]" if isinstance(a, ast.Starred) else "")))
+        # one embedding call inside a loop that does not rebind the variable runs once per iteration: the same nodes again
+        for v, u in uses.items():
+            for c, how in u:
+                if "[*unpacked]" not in how:
+                    continue
+                p_ = m.parent(c)
+                loop = None
+                while p_ is not None and p_ is not f.node:
+                    if isinstance(p_, (ast.For, ast.While)):
+                        loop = p_
+                        break
+                    if isinstance(p_, (ast.FunctionDef, ast.Lambda, ast.ListComp, ast.GeneratorExp)):
+                        break
+                    p_ = m.parent(p_)
+                if loop is None:
+                    continue
+                rebound = any(isinstance(x, ast.Name) and x.id == v and isinstance(x.ctx, ast.Store) for x in ast.walk(loop))
+                n += 1
+                if rebound:
+                    ctx.ok(f"{f.key}|{v}|loop", {"function": f.key, "variable": v, "rebound_in_loop": True})
+                else:
+                    ctx.fail(m, c, f.key, f"*{v} embedded by {norm(c, 60)} on every iteration of the enclosing loop",
+                             f"the nodes in `{v}` are embedded once per loop iteration without a copy ({how} at line {c.lineno}): one node ends up stored "
+                             f"in several trees and its parent/arg_key/index describe only the last one")
+        cands = {v: u for v, u in uses.items() if len(u) >= 2}
+        if not cands:
+            continue
+        g = None
+        for v, u in cands.items():
+            # only variables that hold trees for certain: starred varargs of builders, or names bound from node-producing calls
+            starred = [x for x in u if "[*unpacked]" in x[1]]
+            if len(starred) < 2:
+                continue
+            n += 1
+            if g is None:
+                g = CFG(f.node)
+            nodes = [(g.nodes_for(c), c, how) for c, how in starred]
+            shared = None
+            for i in range(len(nodes)):
+                for j in range(len(nodes)):
+                    if i == j or not nodes[i][0] or not nodes[j][0]:
+                        continue
+                    reach = g.reachable(nodes[i][0][0])
+                    if nodes[j][0][0] in reach and nodes[j][0][0] is not nodes[i][0][0]:
+                        shared = (nodes[i], nodes[j])
+            # reassignment of v between the two uses is not tracked: such code is reported and triaged
+            if shared:
+                (_, c1, h1), (_, c2, h2) = shared
+                ctx.fail(m, c2, f.key, f"*{v} embedded by {norm(c1, 60)} and again by {norm(c2, 60)}",
+                         f"the nodes in `{v}` are embedded twice without a copy ({h1} at line {c1.lineno}, {h2} at line {c2.lineno}): one node ends up stored "
+                         f"in two trees and its parent/arg_key/index describe only the last one")
+            else:
+                ctx.ok(f"{f.key}|{v}", {"function": f.key, "variable": v, "embedding_uses": len(starred), "on_common_path": False})
+    ctx.count("multiply_embedded_candidates", n)
+
+
 def rule_a(ctx: Ctx) -> None:
     ctx.rule(
         "C08.a",
@@ -115,12 +229,23 @@ def rule_a(ctx: Ctx) -> None:
             if n.attr == "_hash" and isinstance(st, ast.Assign):
                 v = st.value
                 recv = norm(n.value)
-                if (isinstance(v, ast.Constant) and v.value is None) or (
-                    isinstance(v, ast.Call) and call_name(v) == "hash" and len(v.args) == 1 and norm(v.args[0]) == recv
-                ):
-                    # always sound: None is always valid; hash(x) is the value __hash__ itself would cache
+                if isinstance(v, ast.Call) and call_name(v) == "hash" and len(v.args) == 1 and norm(v.args[0]) == recv:
+                    # sound: hash(x) is exactly the value __hash__ itself would cache (and it caches all descendants)
                     n_sites += 1
-                    ctx.ok(f"{f.key if f else m.name}|{norm(st)}", {"stmt": norm(st), "why": "_hash := None or hash(same node)"})
+                    ctx.ok(f"{f.key if f else m.name}|{norm(st)}", {"stmt": norm(st), "why": "_hash := hash(same node)"})
+                    continue
+                if isinstance(v, ast.Constant) and v.value is None and (f is None or f.key not in PRIMITIVES):
+                    # `_hash = None` is NOT unconditionally sound: Expression.set stops its upward invalidation walk at the
+                    # first unhashed node, so an unhashed node must never sit below a hashed ancestor. Outside the primitives a
+                    # reset is accepted only for nodes recorded as unhashed *before* hashes were cached on them.
+                    n_sites += 1
+                    where_ = f.key if f else m.name
+                    if _resets_only_previously_unhashed(m, f, st, n):
+                        ctx.ok(f"{where_}|{norm(st)}", {"stmt": norm(st), "why": "resets only nodes collected as `_hash is None` before caching"})
+                    else:
+                        ctx.fail(m, n, where_, st,
+                                 "resets a cached hash to None outside set/append: if the node has a hashed ancestor, a later edit below it no longer "
+                                 "invalidates that ancestor (set() stops its upward walk at the first unhashed node), so cached hashes go stale")
                     continue
             if n.attr == "parent" and isinstance(n.value, ast.Name) and n.value.id in _fresh_locals(f) and isinstance(st, ast.Assign):
                 n_sites += 1
@@ -483,7 +608,93 @@ def rule_d(ctx: Ctx) -> None:
             ctx.fail(f.module, inner, f.key, inner.body[0], "__deepcopy__ drops list elements while copying the cached _hash")
 
 
-RULES = [rule_a, rule_b, rule_c, rule_d]
+def _value_leaves(node: ast.AST) -> list[ast.AST]:
+    """Sub-expressions whose value the expression may evaluate to (through and/or, ternaries, walrus)."""
+    if isinstance(node, ast.BoolOp):
+        return [x for v in node.values for x in _value_leaves(v)]
+    if isinstance(node, ast.IfExp):
+        return _value_leaves(node.body) + _value_leaves(node.orelse)
+    if isinstance(node, ast.NamedExpr):
+        return _value_leaves(node.value)
+    return [node]
+
+
+def rule_f(ctx: Ctx) -> None:
+    ctx.rule("C08.f", "leaf classes (is_primitive = True: Expr.__init__ skips _set_parent, the parser skips validation) are never constructed with a child node: every keyword value at every construction site is a non-node value")
+    repo = ctx.repo
+    names = _expr_class_names(ctx)
+    prim: dict[str, str] = {}
+    for c in repo.all_classes():
+        if not c.module.name.startswith("sqlglot.expressions"):
+            continue
+        for a in repo.mro(c):
+            v = [st.value for st in a.node.body if isinstance(st, (ast.Assign, ast.AnnAssign)) and st.value is not None
+                 and any(isinstance(t_, ast.Name) and t_.id == "is_primitive" for t_ in (st.targets if isinstance(st, ast.Assign) else [st.target]))]
+            if v:
+                if isinstance(v[0], ast.Constant) and v[0].value is True:
+                    prim[c.name] = c.key
+                break
+    ctx.count("primitive_classes", len(prim))
+    ctx.min_instances("primitive_classes", len(prim), 8)
+
+    def returns_node(m: Module, call: ast.Call) -> str | None:
+        cn = call_name(call) or ""
+        last = cn.split(".")[-1]
+        if last in names:
+            return f"constructs {last}"
+        md = None
+        if cn.startswith("self.") and cn.count(".") == 1:
+            k = m.enclosing_class(call)
+            r = repo.lookup_method(k, last) if k is not None else None
+            md = r[1] if r else None
+        elif cn:
+            r2 = repo.resolve_name(m, cn)
+            if r2 and r2[1] in r2[0].funcs:
+                md = r2[0].funcs[r2[1]].node
+        if md is None or md.returns is None:
+            return None
+        ann = ast.unparse(md.returns)
+        for tok in ast.walk(md.returns):
+            nm = tok.attr if isinstance(tok, ast.Attribute) else tok.id if isinstance(tok, ast.Name) else tok.value if isinstance(tok, ast.Constant) and isinstance(tok.value, str) else None
+            if isinstance(nm, str) and any(part in names or part in ("E", "ExpOrStr") for part in nm.replace("|", " ").replace("[", " ").replace("]", " ").replace(".", " ").split()):
+                return f"{cn}() returns {ann}"
+        return None
+
+    sites = 0
+    for m in repo.modules.values():
+        for call in m.of_type(ast.Call):
+            cn = (call_name(call) or "").split(".")[-1]
+            if cn not in prim or not call.keywords:
+                continue
+            r = repo.resolve_name(m, call_name(call) or "")
+            if r is not None and f"{r[0].name}:{r[1]}" != prim[cn]:
+                continue
+            f = m.enclosing_func(call)
+            where = f.key if f else f"{m.name}:<module>"
+            for kw in call.keywords:
+                if kw.arg is None:
+                    continue
+                sites += 1
+                bad = None
+                for leaf in _value_leaves(kw.value):
+                    if isinstance(leaf, ast.Call):
+                        bad = returns_node(m, leaf)
+                    elif isinstance(leaf, (ast.List, ast.Tuple)) and any(isinstance(e, ast.Call) and returns_node(m, e) for e in leaf.elts):
+                        bad = "list of nodes"
+                    if bad:
+                        break
+                inst = f"{where}|{cn}({kw.arg}={norm(kw.value, 80)})"
+                if bad:
+                    ctx.fail(m, call, where, f"{cn}({kw.arg}={norm(kw.value, 80)})",
+                             f"{cn} is a leaf class (is_primitive = True), so its constructor does not link children, yet argument '{kw.arg}' can hold a node ({bad}): "
+                             f"that child is stored with parent=None/arg_key=None and replace()/pop()/root() on it misbehave")
+                else:
+                    ctx.ok(inst)
+    ctx.count("constructor_keyword_sites", sites)
+    ctx.min_instances("constructor_keyword_sites", sites, 40)
+
+
+RULES = [rule_a, rule_b, rule_c, rule_d, rule_e, rule_f]
 EXPLANATION = (
     "Who-may-write analysis over the whole package: every store to the tree representation (args items, parent/arg_key/"
     "index/_hash, raw mutation of alias-tracked child lists) is enumerated and must lie in the primitives, be a provably "
